@@ -63,10 +63,29 @@ def build(rng, tn, kind):
         import sympy
         terms = {k: (sympy.Rational(str(F(v))) if rng.random() < 0.7 else v) for k, v in terms.items()}
         build.sympy_numbers = True
+    build.named = False
     if tn == "dict":
         m = dict(terms)
     elif tn == "DictArithmetic":
         m = L.utils.DictArithmetic(terms)
+    elif not mat and rng.random() < 0.1 and not build.narrow and not build.sympy_numbers:
+        # a variable object (create_var / boolean_var / spin_var: a one-term model that carries its name) edited IN PLACE -- it
+        # keeps the name while it stops being "just the variable": rescaled, and possibly grown by further terms
+        T = getattr(L, tn)
+        x0 = labs[0]
+        if tn in ("PCBO", "PCSO") and rng.random() < 0.5:
+            m = (L.boolean_var if tn == "PCBO" else L.spin_var)(x0)
+        else:
+            m = T.create_var(x0)
+        how = rng.choice(["scaled", "set-item", "grown", "scaled-and-grown", "bare"])
+        if how in ("scaled", "scaled-and-grown"):
+            m *= rng.choice([3, -2, 0.5])
+        elif how == "set-item":
+            m[(x0,)] = rng.choice([-7, 4, 0.25])
+        if how in ("grown", "scaled-and-grown"):
+            for k, v in terms.items():
+                m[k] += v
+        build.named = True
     else:
         m = getattr(L, tn)(terms)
     return m, labs
@@ -157,6 +176,8 @@ def case(ctx, rng, idx):
         ctx.cat("sympy-number-coefficients")
     if build.narrow:
         ctx.cat("narrow-numpy-coefficients")
+    if getattr(build, "named", False):
+        ctx.cat("named-variable-edited-in-place")
     # plain dicts / DictArithmetic have no squashing: keys are sets of distinct labels, 'kind' only names the algebra
     p = ref.from_raw("bool", dict(m)) if tn in ("dict", "DictArithmetic") else ref.from_raw(kind, dict(m))
     fn = rng.choice(["subvalue", "subgraph", "normalize"])
@@ -320,6 +341,41 @@ def case(ctx, rng, idx):
             ctx.nontrivial((fn, tn, sorted(snap.items(), key=repr), val, method))
     ctx.sample({"function": fn, "type": tn, "terms": snap, "args": {k: v for k, v in w.items() if k not in ("function", "type", "terms")},
                 "result": dict(r)}, limit=3)
+    if fn in ("subvalue", "subgraph") and tn != "dict" and not build.narrow and not build.sympy_numbers and rng.random() < 0.3:
+        # second look: the same model object is edited in place (one term removed, another one entered: the number of terms
+        # stays, the terms do not; or a coefficient changed) and asked the same question again
+        deg_ = 2 if tn in ("QUBO", "QUSO", "QUBOMatrix", "QUSOMatrix") else 4
+        k_old = rng.choice(list(m))
+        cand = [tuple(gen.sort_labels(rng.sample(labs, rng.randint(1, min(len(labs), deg_))))) for _ in range(6)]
+        cand = [k for k in cand if k not in m]
+        how2 = rng.choice(["swap-a-term", "swap-a-term", "change-coefficient", "remove-a-term"])
+        if how2 == "swap-a-term" and not cand:
+            how2 = "change-coefficient"
+        if how2 == "swap-a-term":
+            m[k_old] = 0
+            m[cand[0]] = 7
+        elif how2 == "change-coefficient":
+            m[k_old] = m[k_old] * 2 + 3
+        else:
+            m[k_old] -= m[k_old]
+        ctx.cat("second-look:model-edited-in-place:" + how2)
+        snap2 = dict(m)
+        w2 = dict(w, terms=snap2, first_terms=snap, edit=how2)
+        p2 = ref.from_raw("bool", snap2) if tn == "DictArithmetic" else ref.from_raw(kind, snap2)
+        if fn == "subvalue":
+            ok, r2 = (ctx.call("subvalue", m.subvalue, w["values"], _w=w2) if method else ctx.call("subvalue", L.utils.subvalue, w["values"], m, _w=w2))
+            if not ok:
+                return
+            if not compare(ctx, "subvalue", p2.kind, r2, p2, w["values"] if isinstance(w["values"], dict) else dict(w["values"]), syms, rng, w2):
+                return
+        else:
+            ok, r2 = (ctx.call("subgraph", m.subgraph, w["nodes"], w["connections"], _w=w2) if method else ctx.call("subgraph", L.utils.subgraph, m, w["nodes"], w["connections"], _w=w2))
+            if not ok:
+                return
+            full2 = {x: (w["connections"] or {}).get(x, 0) for x in p2.vars() if x not in w["nodes"]}
+            if not compare(ctx, "subgraph", p2.kind, r2, p2 - Poly(p2.kind, {(): p2.offset()}), full2, {}, rng, w2):
+                return
+        return
     if fn in ("subvalue", "subgraph") and not method and rng.random() < 0.3:
         first = dict(r)
         core.scribble(r)
